@@ -163,6 +163,9 @@ type Executor struct {
 	Name string
 	Fn   *ssa.Function
 	Reg  *ssa.Call
+	// executors made by a factory (func(flag) Executor { return func(...) {...} }): the constant
+	// each captured variable of the closure holds for this registration
+	FreeConst map[*ssa.FreeVar]*ssa.Const
 }
 
 // executors reads the (name, closure) pairs registered with RegisterExexutor in the framework.
@@ -180,21 +183,67 @@ func (p *Program) executors() (list []Executor, unresolved []*ssa.Call) {
 			}
 			name, okN := constString(args[1])
 			var ef *ssa.Function
+			var freeConst map[*ssa.FreeVar]*ssa.Const
 			switch x := strip(args[2]).(type) {
 			case *ssa.MakeClosure:
 				ef, _ = x.Fn.(*ssa.Function)
 			case *ssa.Function:
 				ef = x
+			case *ssa.Call:
+				ef, freeConst = factoryClosure(x)
 			}
 			if !okN || ef == nil {
 				unresolved = append(unresolved, c)
 				return
 			}
-			list = append(list, Executor{Name: name, Fn: ef, Reg: c})
+			list = append(list, Executor{Name: name, Fn: ef, Reg: c, FreeConst: freeConst})
 		})
 	}
 	sort.Slice(list, func(i, j int) bool { return list[i].Name < list[j].Name })
 	return
+}
+
+// factoryClosure: call is fac(consts...) where the framework function fac returns, on its only
+// return, a closure; the closure and the constants its captured parameters hold.
+func factoryClosure(call *ssa.Call) (*ssa.Function, map[*ssa.FreeVar]*ssa.Const) {
+	fac := staticCallee(call.Common())
+	if fac == nil || fac.Blocks == nil || !inFramework(fac) {
+		return nil, nil
+	}
+	rets := returnsOf(fac)
+	if len(rets) != 1 || len(rets[0].Results) != 1 {
+		return nil, nil
+	}
+	mc, ok := strip(retOperand(rets[0], 0)).(*ssa.MakeClosure)
+	if !ok {
+		return nil, nil
+	}
+	fn, ok := mc.Fn.(*ssa.Function)
+	if !ok {
+		return nil, nil
+	}
+	consts := map[*ssa.FreeVar]*ssa.Const{}
+	for i, fv := range fn.FreeVars {
+		if i >= len(mc.Bindings) {
+			break
+		}
+		var src ssa.Value = mc.Bindings[i]
+		if al, ok := src.(*ssa.Alloc); ok {
+			src = singleStore(al)
+		}
+		par, ok := src.(*ssa.Parameter)
+		if !ok {
+			continue
+		}
+		for j, fp := range fac.Params {
+			if fp == par && j < len(call.Common().Args) {
+				if cv, ok := call.Common().Args[j].(*ssa.Const); ok {
+					consts[fv] = cv
+				}
+			}
+		}
+	}
+	return fn, consts
 }
 
 // GoSite is a go statement.
